@@ -64,9 +64,10 @@ pub fn exec(line: &str, _model: &mut Model) -> Option<Exec> {
                 None => { e = Exec::new("panic".into()); e.oracle_fail = Some("decoder panics".into()); }
                 Some(Err(_)) => { e = Exec::new("err".into()); }
                 Some(Ok(b)) => {
-                    let p = receive_ops(&b);
+                    let (p, peak_ops) = crate::p_ffi::metered(|| receive_ops(&b));
                     e = Exec::new(format!("ok {} ops={}", show_bundle(&b), match p { None => "ok".to_string(), Some(n) => format!("panic:{}", n.replace(' ', "_")) }));
                     if let Some(n) = p { e.oracle_fail = Some(format!("`{}` panics on a bundle the decoder accepted", n)); }
+                    else if peak_ops > bound { e.oracle_fail = Some(format!("the receive-path operations on a bundle decoded from {} input bytes held {} bytes allocated at one time (bound {})", bytes.len(), peak_ops, bound)); }
                 }
             }
             e.nontrivial = bytes.len() > 3;
@@ -95,7 +96,13 @@ pub fn exec(line: &str, _model: &mut Model) -> Option<Exec> {
                 None => { e = Exec::new("panic".into()); e.oracle_fail = Some("decoder panics".into()); e.tags.push("outcome:panic".into()); }
                 Some(Err(_)) => { e = Exec::new("err".into()); e.tags.push("outcome:decode-error".into()); }
                 Some(Ok(mut b)) => {
-                    let crcok = no_panic(|| b.crc_valid());
+                    // a receiver may ask more than once: the bundle counts as passing if ANY of three calls says valid,
+                    // and as failing the uncorrupted case if any says invalid
+                    let before = b.clone();
+                    let calls: Vec<Option<bool>> = (0..3).map(|_| no_panic(|| b.crc_valid())).collect();
+                    let crcok = if calls.iter().any(|c| c.is_none()) { None } else if bytes == orig { Some(calls.iter().all(|c| *c == Some(true))) } else { Some(calls.iter().any(|c| *c == Some(true))) };
+                    let changed_by_check = b != before;
+                    let b = before;
                     let same = enc_no_recalc(&b).map(|v| v == bytes).unwrap_or(false);
                     e = Exec::new(format!("ok {} crcok={} same={}", show_bundle(&b), crcok.map(|x| x.to_string()).unwrap_or("panic".into()), same));
                     let o = Bundle::try_from(orig.as_slice()).ok();
@@ -104,6 +111,8 @@ pub fn exec(line: &str, _model: &mut Model) -> Option<Exec> {
                     e.tags.push(format!("outcome:{}", if crcok != Some(true) { "invalid" } else if !differs { "valid-same" } else if in_alarm { "VALID-DIFFERENT(alarm)" } else { "valid-different(outside alarm condition)" }));
                     if crcok == Some(true) && differs && in_alarm { e.oracle_fail = Some("corrupted bundle decodes to a different bundle that passes the CRC check".into()); }
                     if bytes == orig && crcok != Some(true) { e.oracle_fail = Some("uncorrupted bundle fails the CRC check".into()); }
+                    if e.oracle_fail.is_none() && calls.iter().any(|c| *c != calls[0]) { e.oracle_fail = Some(format!("repeated crc_valid() calls on the same decoded bundle disagree: {:?}", calls)); }
+                    if e.oracle_fail.is_none() && changed_by_check { e.oracle_fail = Some("crc_valid() changed the bundle it checked".into()); }
                 }
             }
             Some(e)
@@ -263,6 +272,27 @@ fn gen_c06(rng: &mut Rng, ctx: &mut Ctx, rep: &mut Report, emit: Emit) {
         if !wfb { // shapes only a decoder produces: keep encodable
             for c in b.canonicals.iter_mut() { if matches!(c.data(), CanonicalData::DecodingError) { c.set_data(CanonicalData::Unknown(vec![])); } }
         }
+        // block numbers at the top of the range, with and without the usual block 1: a gap-free run ending at
+        // u64::MAX, a single block numbered u64::MAX or u64::MAX - 1
+        if i % 23 == 0 && !b.canonicals.is_empty() {
+            let n = b.canonicals.len() as u64;
+            match rng.below(3) {
+                0 => { for (k, c) in b.canonicals.iter_mut().enumerate() { c.block_number = u64::MAX - k as u64; } }
+                1 => { b.canonicals.truncate(1); b.canonicals[0].block_number = u64::MAX - rng.below(2); }
+                _ => { for (k, c) in b.canonicals.iter_mut().enumerate() { c.block_number = if k as u64 == n - 1 { 1 } else { u64::MAX - k as u64 } } }
+            }
+        }
+        // large but legal shapes: a long endpoint ID together with many blocks that repeat a number / a type
+        if i % 397 == 5 {
+            let name: String = std::iter::repeat('n').take(*rng.pick(&[4_096usize, 32_768])).collect();
+            b.primary.source = EndpointID::Dtn(1, dtn_address(format!("//{}/x", name).as_bytes()).unwrap());
+            let k = *rng.pick(&[512u64, 2_048]);
+            let t = *rng.pick(&[7u64, 10, 6, 192]);
+            b.canonicals = (0..k).map(|j| new_canonical_block(t, if rng.chance(1, 2) { 2 } else { 2 + j % 3 }, 0, match t { 7 => CanonicalData::BundleAge(j), 10 => CanonicalData::HopCount(3, 1), 6 => CanonicalData::PreviousNode(EndpointID::DtnNone(1, 0)), _ => CanonicalData::Unknown(vec![]) })).collect();
+            b.canonicals.push(new_canonical_block(1, 1, 0, CanonicalData::Data(vec![1])));
+            if let Some(base) = no_panic(|| b.to_cbor()) { emit(ctx, rep, format!("rx {}", hex(&base))); }
+            continue;
+        }
         let base = match no_panic(|| b.to_cbor()) { Some(x) => x, None => continue };
         let m = match rng.below(20) { 0 => base.clone(), 1 => deep_nesting(rng), 2 | 3 => depth_probe(rng, &base), 4 | 5 => outer_definite(rng, &base), _ => mutate(rng, &base) };
         emit(ctx, rep, format!("rx {}", hex(&m)));
@@ -335,7 +365,11 @@ fn inject(class: &str, base: &[u8], rng: &mut Rng) -> Option<Vec<u8>> {
         "array-kind" => { // a mandatory array replaced by an integer, string or map
             let cands: Vec<usize> = if primary { vec![3, 4, 5, 6] } else { return Some({ let repl: &[u8] = *rng.pick(&[&[0x05u8][..], &[0x61, 0x61], &[0xa0]]); v.splice(r.0..r.1, repl.iter().cloned()); v }) };
             let k = *rng.pick(&cands);
-            let repl: &[u8] = *rng.pick(&[&[0x05u8][..], &[0x61, 0x61], &[0xa0], &[0xa1, 0x01, 0x00]]);
+            // integers, maps, and strings -- including text that reads as an endpoint URI, a number or a timestamp
+            let texts: [&str; 9] = ["a", "dtn:none", "dtn://a/", "dtn://node/svc", "ipn:1.2", "ipn:977000.3", "1.2", "7", "[1,0]"];
+            let repl: Vec<u8> = match rng.below(7) { 0 => vec![0x05], 1 => vec![0xa0], 2 => vec![0xa1, 0x01, 0x00],
+                3 => { let t = rng.pick(&texts).as_bytes(); let mut f = cbor_head(2, t.len() as u64); f.extend_from_slice(t); f }
+                _ => { let t = rng.pick(&texts).as_bytes(); let mut f = cbor_head(3, t.len() as u64); f.extend_from_slice(t); f } };
             v.splice(ch[k].0..ch[k].1, repl.iter().cloned());
         }
         "bstr-kind" => { // an integer in place of a byte-string field
@@ -345,7 +379,7 @@ fn inject(class: &str, base: &[u8], rng: &mut Rng) -> Option<Vec<u8>> {
         "btsd" => { // block-type-specific data of a known extension block that is not the required item
             if primary { return None; }
             let bt = cborx::read_uint(base, ch[0])?;
-            let bad: Vec<&[u8]> = match bt { 7 => vec![&[0x20], &[0x61, 0x61], &[0x80], &[], &[0x01, 0x02], &[0xf6]], 10 => vec![&[0x05], &[0x81, 0x01], &[0x83, 1, 2, 3], &[0x82, 0x19, 0x01, 0x00, 0x01], &[0x82, 0x20, 0x01], &[]], 6 => vec![&[0x05], &[0x80], &[0x82, 0x03, 0x00], &[0x82, 0x02, 0x82, 0x00, 0x01], &[0x82, 0x02, 0x81, 0x01], &[0x83, 0x01, 0x00, 0x00], &[]], _ => return None };
+            let bad: Vec<&[u8]> = match bt { 7 => vec![&[0x20], &[0x61, 0x61], &[0x80], &[], &[0x01, 0x02], &[0xf6]], 10 => vec![&[0x05], &[0x81, 0x01], &[0x83, 1, 2, 3], &[0x82, 0x19, 0x01, 0x00, 0x01], &[0x82, 0x20, 0x01], &[]], 6 => vec![&[0x05], &[0x80], &[0x68, b'd', b't', b'n', b':', b'n', b'o', b'n', b'e'], &[0x67, b'i', b'p', b'n', b':', b'1', b'.', b'2'], &[0x48, b'd', b't', b'n', b':', b'/', b'/', b'a', b'/'], &[0x82, 0x03, 0x00], &[0x82, 0x02, 0x82, 0x00, 0x01], &[0x82, 0x02, 0x81, 0x01], &[0x83, 0x01, 0x00, 0x00], &[]], _ => return None };
             let b = *rng.pick(&bad);
             let mut f = cbor_head(2, b.len() as u64); f.extend_from_slice(b);
             v.splice(ch[4].0..ch[4].1, f);
